@@ -528,7 +528,8 @@ func (obj *Package) Unexport(name string) {
 	obj.mu.Lock()
 	// TBD remove from Exports list
 	if obj.funcs != nil {
-		if fi := obj.funcs[name]; fi != nil {
+		// Only a function of this package, not one it inherits.
+		if fi := obj.funcs[name]; fi != nil && fi.Pkg == obj {
 			fi.Export = false
 			for _, u := range obj.Users {
 				u.mu.Lock()
@@ -540,7 +541,7 @@ func (obj *Package) Unexport(name string) {
 		}
 	}
 	if obj.vars != nil {
-		if vv := obj.vars[name]; vv != nil {
+		if vv := obj.vars[name]; vv != nil && (vv.Pkg == obj || vv.Pkg == nil) {
 			vv.Export = false
 			for _, u := range obj.Users {
 				u.mu.Lock()
